@@ -1,5 +1,5 @@
 (* C06: the active-session read path never panics or spins, whatever the bytes. *)
-From RdpV Require Import Base Msg MsgInd MsgSafe LayoutsGlobal Link Tpkt Global.
+From RdpV Require Import Base Msg MsgInd MsgSafe MsgProv LayoutsGlobal Link Tpkt Global.
 Open Scope string_scope.
 Open Scope list_scope.
 Open Scope N_scope.
@@ -90,123 +90,592 @@ Proof. vm_compute. reflexivity. Qed.
 Ltac layouts := pose proof safe_layouts as
   [Ls1 [Ls2 [Ls3 [Ls4 [Ls5 [Ls6 [Ls7 [Ls8 [Ls9 [Ls10 [Ls11 [Ls12 [Ls13 [Ls14 [Ls15 Ls16]]]]]]]]]]]]]]].
 
+
+Lemma rd_prod p t input :
+  safe t = true -> wf_bytes input ->
+  match rd p t input with Ok m' => produced p t m' | Err _ => True | _ => False end.
+Proof.
+  intros Hs Hwf. unfold rd. pose proof (read_safe p t Hs input Hwf) as H. unfold post in H.
+  destruct (read p t input) as [m' r a|e r a| |] eqn:E; auto. exists input, r, a. auto.
+Qed.
+
+Lemma safe_elems :
+  safe capability_set_t = true /\ safe ts_bitmap_data = true.
+Proof. vm_compute. split; reflexivity. Qed.
+
 Section Glue.
 Variable p : prof.
 
-(* reading template t from a block that came out of a previous read *)
 Lemma rd_nocrash t input : safe t = true -> wf_bytes input -> nocrash (rd p t input).
 Proof.
   intros Hs Hwf. pose proof (rd_post p t input Hs Hwf) as H.
   destruct (rd p t input); auto; contradiction.
 Qed.
 
-(* body of field `name` of m parsed with template t *)
-Lemma parse_field_nocrash {A} name m t (k : msg -> outcome A) :
+(* obind (cast_bytes field) (fun body => obind (rd t body) (fun m => Ok (x, m))) *)
+Lemma parse_field_prod {X} (x : X) name m t :
   bounded m -> has_field name m = true -> safe t = true ->
-  (forall m', fields_sig m' = fields_sig t -> bounded m' -> nocrash (k m')) ->
-  nocrash (obind (cast_bytes (get m name)) (fun body => obind (rd p t body) k)).
-Proof.
-  intros Hb Hh Hs Hk. pose proof (cast_bytes_ok name m Hb Hh) as Hc.
-  destruct (cast_bytes (get m name)) as [body| | |]; cbn [obind]; auto; try contradiction.
-  pose proof (rd_post p t body Hs Hc) as Hr.
-  destruct (rd p t body) as [m'| | |]; cbn [obind]; auto; try contradiction.
-  destruct Hr as [H1 H2]. apply Hk; auto.
-Qed.
-
-Lemma pdu_from_control_nocrash c :
-  bounded c -> fields_sig c = fields_sig share_control_header_t ->
-  match pdu_from_control p c with
-  | Ok (t, m) => bounded m /\
-      ((t = PDUTYPE_DEMANDACTIVE /\ fields_sig m = fields_sig ts_demand_active_pdu) \/
-       (t = PDUTYPE_DATA /\ fields_sig m = fields_sig share_data_header_t) \/
-       (t = PDUTYPE_CONFIRMACTIVE /\ fields_sig m = fields_sig ts_confirm_active_pdu_t) \/
-       (t = PDUTYPE_DEACTIVATEALL /\ fields_sig m = fields_sig ts_deactivate_all_pdu))
+  match obind (cast_bytes (get m name)) (fun body => obind (rd p t body) (fun m' => Ok (x, m'))) with
+  | Ok (x', m') => x' = x /\ produced p t m'
   | Err _ => True
   | _ => False
   end.
 Proof.
-  intros Hb Hsig. layouts. unfold pdu_from_control.
+  intros Hb Hh Hs. pose proof (cast_bytes_ok name m Hb Hh) as Hc.
+  destruct (cast_bytes (get m name)) as [body| | |]; cbn [obind]; auto.
+  pose proof (rd_prod p t body Hs Hc) as Hr.
+  destruct (rd p t body) as [m'| | |]; cbn [obind]; auto.
+Qed.
+
+Definition control_result (r : outcome (N * msg)) : Prop :=
+  match r with
+  | Ok (t, m) =>
+      (t = PDUTYPE_DEMANDACTIVE /\ produced p ts_demand_active_pdu m) \/
+      (t = PDUTYPE_DATA /\ produced p share_data_header_t m) \/
+      (t = PDUTYPE_CONFIRMACTIVE /\ produced p ts_confirm_active_pdu_t m) \/
+      (t = PDUTYPE_DEACTIVATEALL /\ produced p ts_deactivate_all_pdu m)
+  | Err _ => True
+  | _ => False
+  end.
+
+Lemma pdu_from_control_ok c :
+  produced p share_control_header_t c -> control_result (pdu_from_control p c).
+Proof.
+  intros Hp. layouts. destruct (produced_post p _ c Ls1 Hp) as [Hsig Hb].
+  unfold pdu_from_control, control_result.
   assert (Hf1 : has_field "pduType" c = true) by (rewrite (has_field_sig _ _ _ Hsig); reflexivity).
   assert (Hf2 : has_field "pduMessage" c = true) by (rewrite (has_field_sig _ _ _ Hsig); reflexivity).
   destruct (cast_num_nocrash 16 "pduType" c Hb Hf1) as [Hn1 Hn2].
   destruct (cast_num 16 (get c "pduType")) as [pt| | |]; cbn [obind]; auto.
   destruct (pdutype_known pt); cbn [negb]; auto.
-  pose proof (cast_bytes_ok "pduMessage" c Hb Hf2) as Hc.
   destruct (pt =? PDUTYPE_DEMANDACTIVE) eqn:E1; [apply N.eqb_eq in E1|].
-  { destruct (cast_bytes (get c "pduMessage")) as [body| | |]; cbn [obind]; auto.
-    pose proof (rd_post p ts_demand_active_pdu body Ls2 Hc) as Hr.
-    destruct (rd p ts_demand_active_pdu body); cbn [obind]; auto. destruct Hr. split; auto. }
+  { pose proof (parse_field_prod pt "pduMessage" c ts_demand_active_pdu Hb Hf2 Ls2) as H.
+    match goal with |- match ?o with _ => _ end => destruct o as [[t m]| | |]; auto end.
+    destruct H as [-> H]. auto. }
   destruct (pt =? PDUTYPE_DATA) eqn:E2; [apply N.eqb_eq in E2|].
-  { destruct (cast_bytes (get c "pduMessage")) as [body| | |]; cbn [obind]; auto.
-    pose proof (rd_post p share_data_header_t body Ls3 Hc) as Hr.
-    destruct (rd p share_data_header_t body); cbn [obind]; auto. destruct Hr. split; auto. }
+  { pose proof (parse_field_prod pt "pduMessage" c share_data_header_t Hb Hf2 Ls3) as H.
+    match goal with |- match ?o with _ => _ end => destruct o as [[t m]| | |]; auto end.
+    destruct H as [-> H]. auto. }
   destruct (pt =? PDUTYPE_CONFIRMACTIVE) eqn:E3; [apply N.eqb_eq in E3|].
-  { destruct (cast_bytes (get c "pduMessage")) as [body| | |]; cbn [obind]; auto.
-    pose proof (rd_post p ts_confirm_active_pdu_t body Ls4 Hc) as Hr.
-    destruct (rd p ts_confirm_active_pdu_t body); cbn [obind]; auto. destruct Hr. split; auto 6. }
+  { pose proof (parse_field_prod pt "pduMessage" c ts_confirm_active_pdu_t Hb Hf2 Ls4) as H.
+    match goal with |- match ?o with _ => _ end => destruct o as [[t m]| | |]; auto end.
+    destruct H as [-> H]. auto. }
   destruct (pt =? PDUTYPE_DEACTIVATEALL) eqn:E4; [apply N.eqb_eq in E4|]; auto.
-  { destruct (cast_bytes (get c "pduMessage")) as [body| | |]; cbn [obind]; auto.
-    pose proof (rd_post p ts_deactivate_all_pdu body Ls5 Hc) as Hr.
-    destruct (rd p ts_deactivate_all_pdu body); cbn [obind]; auto. destruct Hr. split; auto 6. }
+  { pose proof (parse_field_prod pt "pduMessage" c ts_deactivate_all_pdu Hb Hf2 Ls5) as H.
+    match goal with |- match ?o with _ => _ end => destruct o as [[t m]| | |]; auto end.
+    destruct H as [-> H]. auto 6. }
 Qed.
 
-Lemma pdu_from_stream_nocrash input :
-  wf_bytes input ->
-  match pdu_from_stream p input with
-  | Ok (t, m) => bounded m /\
-      ((t = PDUTYPE_DEMANDACTIVE /\ fields_sig m = fields_sig ts_demand_active_pdu) \/
-       (t = PDUTYPE_DATA /\ fields_sig m = fields_sig share_data_header_t) \/
-       (t = PDUTYPE_CONFIRMACTIVE /\ fields_sig m = fields_sig ts_confirm_active_pdu_t) \/
-       (t = PDUTYPE_DEACTIVATEALL /\ fields_sig m = fields_sig ts_deactivate_all_pdu))
-  | Err _ => True
-  | _ => False
-  end.
+Lemma pdu_from_stream_ok input :
+  wf_bytes input -> control_result (pdu_from_stream p input).
 Proof.
   intros Hwf. layouts. unfold pdu_from_stream.
-  pose proof (rd_post p share_control_header_t input Ls1 Hwf) as Hr.
-  destruct (rd p share_control_header_t input) as [c| | |]; cbn [obind]; auto.
-  destruct Hr as [H1 H2]. apply pdu_from_control_nocrash; auto.
+  pose proof (rd_prod p share_control_header_t input Ls1 Hwf) as Hr.
+  destruct (rd p share_control_header_t input) as [c| | |]; cbn [obind]; auto; try exact I.
+  apply pdu_from_control_ok; auto.
 Qed.
 
-Lemma data_pdu_from_pdu_nocrash m :
-  bounded m -> fields_sig m = fields_sig share_data_header_t ->
-  match data_pdu_from_pdu p m with
-  | Ok (t2, d) => bounded d /\
-      ((t2 = PDUTYPE2_SYNCHRONIZE /\ fields_sig d = fields_sig (ts_synchronize_pdu 0)) \/
-       (t2 = PDUTYPE2_CONTROL /\ fields_sig d = fields_sig (ts_control_pdu CTRLACTION_COOPERATE)) \/
-       (t2 = PDUTYPE2_FONTLIST /\ fields_sig d = fields_sig ts_font_list_pdu) \/
-       (t2 = PDUTYPE2_FONTMAP /\ fields_sig d = fields_sig ts_font_map_pdu) \/
-       (t2 = PDUTYPE2_SET_ERROR_INFO /\ fields_sig d = fields_sig ts_set_error_info_pdu))
+Definition data_result (r : outcome (N * msg)) : Prop :=
+  match r with
+  | Ok (t2, d) =>
+      (t2 = PDUTYPE2_SYNCHRONIZE /\ produced p (ts_synchronize_pdu 0) d) \/
+      (t2 = PDUTYPE2_CONTROL /\ produced p (ts_control_pdu CTRLACTION_COOPERATE) d) \/
+      (t2 = PDUTYPE2_FONTLIST /\ produced p ts_font_list_pdu d) \/
+      (t2 = PDUTYPE2_FONTMAP /\ produced p ts_font_map_pdu d) \/
+      (t2 = PDUTYPE2_SET_ERROR_INFO /\ produced p ts_set_error_info_pdu d)
   | Err _ => True
   | _ => False
   end.
+
+Lemma data_pdu_from_pdu_ok m :
+  produced p share_data_header_t m -> data_result (data_pdu_from_pdu p m).
 Proof.
-  intros Hb Hsig. layouts. unfold data_pdu_from_pdu.
+  intros Hp. layouts. destruct (produced_post p _ m Ls3 Hp) as [Hsig Hb].
+  unfold data_pdu_from_pdu, data_result.
   assert (Hf1 : has_field "pduType2" m = true) by (rewrite (has_field_sig _ _ _ Hsig); reflexivity).
   assert (Hf2 : has_field "payload" m = true) by (rewrite (has_field_sig _ _ _ Hsig); reflexivity).
   destruct (cast_num_nocrash 8 "pduType2" m Hb Hf1) as [Hn1 Hn2].
   destruct (cast_num 8 (get m "pduType2")) as [t2| | |]; cbn [obind]; auto.
   destruct (pdutype2_known t2); cbn [negb]; auto.
-  pose proof (cast_bytes_ok "payload" m Hb Hf2) as Hc.
   destruct (t2 =? PDUTYPE2_SYNCHRONIZE) eqn:E1; [apply N.eqb_eq in E1|].
-  { destruct (cast_bytes (get m "payload")) as [body| | |]; cbn [obind]; auto.
-    pose proof (rd_post p (ts_synchronize_pdu 0) body Ls6 Hc) as Hr.
-    destruct (rd p (ts_synchronize_pdu 0) body); cbn [obind]; auto. destruct Hr. split; auto. }
+  { pose proof (parse_field_prod t2 "payload" m (ts_synchronize_pdu 0) Hb Hf2 Ls6) as H.
+    match goal with |- match ?o with _ => _ end => destruct o as [[t d]| | |]; auto end.
+    destruct H as [-> H]. auto. }
   destruct (t2 =? PDUTYPE2_CONTROL) eqn:E2; [apply N.eqb_eq in E2|].
-  { destruct (cast_bytes (get m "payload")) as [body| | |]; cbn [obind]; auto.
-    pose proof (rd_post p (ts_control_pdu CTRLACTION_COOPERATE) body Ls7 Hc) as Hr.
-    destruct (rd p (ts_control_pdu CTRLACTION_COOPERATE) body); cbn [obind]; auto. destruct Hr. split; auto. }
+  { pose proof (parse_field_prod t2 "payload" m (ts_control_pdu CTRLACTION_COOPERATE) Hb Hf2 Ls7) as H.
+    match goal with |- match ?o with _ => _ end => destruct o as [[t d]| | |]; auto end.
+    destruct H as [-> H]. auto. }
   destruct (t2 =? PDUTYPE2_FONTLIST) eqn:E3; [apply N.eqb_eq in E3|].
-  { destruct (cast_bytes (get m "payload")) as [body| | |]; cbn [obind]; auto.
-    pose proof (rd_post p ts_font_list_pdu body Ls8 Hc) as Hr.
-    destruct (rd p ts_font_list_pdu body); cbn [obind]; auto. destruct Hr. split; auto 6. }
+  { pose proof (parse_field_prod t2 "payload" m ts_font_list_pdu Hb Hf2 Ls8) as H.
+    match goal with |- match ?o with _ => _ end => destruct o as [[t d]| | |]; auto end.
+    destruct H as [-> H]. auto 6. }
   destruct (t2 =? PDUTYPE2_FONTMAP) eqn:E4; [apply N.eqb_eq in E4|].
-  { destruct (cast_bytes (get m "payload")) as [body| | |]; cbn [obind]; auto.
-    pose proof (rd_post p ts_font_map_pdu body Ls9 Hc) as Hr.
-    destruct (rd p ts_font_map_pdu body); cbn [obind]; auto. destruct Hr. split; auto 7. }
+  { pose proof (parse_field_prod t2 "payload" m ts_font_map_pdu Hb Hf2 Ls9) as H.
+    match goal with |- match ?o with _ => _ end => destruct o as [[t d]| | |]; auto end.
+    destruct H as [-> H]. auto 7. }
   destruct (t2 =? PDUTYPE2_SET_ERROR_INFO) eqn:E5; [apply N.eqb_eq in E5|]; auto.
-  { destruct (cast_bytes (get m "payload")) as [body| | |]; cbn [obind]; auto.
-    pose proof (rd_post p ts_set_error_info_pdu body Ls10 Hc) as Hr.
-    destruct (rd p ts_set_error_info_pdu body); cbn [obind]; auto. destruct Hr. split; auto 8. }
+  { pose proof (parse_field_prod t2 "payload" m ts_set_error_info_pdu Hb Hf2 Ls10) as H.
+    match goal with |- match ?o with _ => _ end => destruct o as [[t d]| | |]; auto end.
+    destruct H as [-> H]. auto 8. }
+Qed.
+
+(* ---- capability sets of a demand-active ---- *)
+Lemma capability_from_set_nocrash c :
+  produced p capability_set_t c -> nocrash (capability_from_set p c).
+Proof.
+  intros Hp. destruct safe_elems as [Lc _]. destruct (produced_post p _ c Lc Hp) as [Hsig Hb].
+  unfold capability_from_set.
+  assert (Hf1 : has_field "capabilitySetType" c = true) by (rewrite (has_field_sig _ _ _ Hsig); reflexivity).
+  assert (Hf2 : has_field "capabilitySet" c = true) by (rewrite (has_field_sig _ _ _ Hsig); reflexivity).
+  apply obind_nocrash; [apply cast_num_nocrash; auto|]. intros t _.
+  destruct (capset_type_known t); cbn [negb]; auto.
+  destruct (capability_template t) as [tm|] eqn:Et; auto.
+  pose proof (safe_capability_templates t tm Et) as Hs.
+  pose proof (cast_bytes_ok "capabilitySet" c Hb Hf2) as Hc.
+  destruct (cast_bytes (get c "capabilitySet")) as [body| | |]; cbn [obind]; auto; try contradiction.
+  apply obind_nocrash; [apply rd_nocrash; auto|]. intros; auto.
+Qed.
+
+Lemma caps_crash_nocrash l :
+  Forall (produced p capability_set_t) l -> nocrash (caps_crash p l).
+Proof.
+  induction l as [|c tl IH]; intros H; cbn [caps_crash]; auto.
+  inversion H as [|? ? Hc Htl]; subst.
+  destruct (capability_from_set_nocrash c Hc) as [H1 H2].
+  destruct (capability_from_set p c); auto; congruence.
+Qed.
+
+Lemma write_confirm_active_ok s : exists b, write_confirm_active p s = Ok b.
+Proof. eexists. vm_compute. reflexivity. Qed.
+
+Lemma write_client_finalize_ok s : exists b, write_client_finalize p s = Ok b.
+Proof. eexists. vm_compute. reflexivity. Qed.
+
+Ltac type_clash :=
+  match goal with
+  | H : ?a = ?b /\ _ |- _ => let H1 := fresh in destruct H as [H1 _]; vm_compute in H1; discriminate H1
+  end.
+
+Lemma read_demand_active_nocrash s input :
+  wf_bytes input -> nocrash (r_out (read_demand_active p s input)).
+Proof.
+  intros Hwf. unfold read_demand_active. layouts.
+  pose proof (pdu_from_stream_ok input Hwf) as Hc. unfold control_result in Hc.
+  destruct (pdu_from_stream p input) as [[t m]| | |]; cbn [lift done r_out]; auto; try contradiction.
+  destruct (t =? PDUTYPE_DEMANDACTIVE) eqn:Et; cbn [negb lift done r_out]; auto.
+  apply N.eqb_eq in Et. subst t.
+  assert (Hp : produced p ts_demand_active_pdu m).
+  { destruct Hc as [[_ H]|[H|[H|H]]]; auto; type_clash. }
+  destruct (produced_post p _ m Ls2 Hp) as [Hsig Hb].
+  assert (Hf1 : has_field "capabilitySets" m = true) by (rewrite (has_field_sig _ _ _ Hsig); reflexivity).
+  assert (Hf2 : has_field "shareId" m = true) by (rewrite (has_field_sig _ _ _ Hsig); reflexivity).
+  destruct (get_field "capabilitySets" m Hb Hf1) as [cs [Hg _]]. rewrite Hg.
+  destruct safe_elems as [Lc _].
+  destruct (comp_array_field p _ m "capabilitySets" capability_set_t cs Ls2 Hp eq_refl Hg) as [l [Hl Hfl]].
+  rewrite Hl. cbn [lift].
+  destruct (caps_crash_nocrash l Hfl) as [H1 H2].
+  destruct (caps_crash p l) as [u| | |]; cbn [lift done r_out]; auto; try congruence.
+  destruct (cast_num_nocrash 32 "shareId" m Hb Hf2) as [H3 H4].
+  destruct (cast_num 32 (get m "shareId")) as [sid| | |]; cbn [lift done r_out]; auto; try congruence.
+  destruct (write_confirm_active_ok (set_share s (Some sid))) as [f0 ->]. cbn [lift].
+  destruct (write_client_finalize_ok (set_share s (Some sid))) as [fs ->]. cbn [lift r_out]. auto.
+Qed.
+
+Lemma read_expect_data_nocrash s input t2 act next :
+  wf_bytes input -> (act <> None -> t2 = PDUTYPE2_CONTROL) ->
+  nocrash (r_out (read_expect_data p s input t2 act next)).
+Proof.
+  intros Hwf Hact. unfold read_expect_data. layouts.
+  pose proof (pdu_from_stream_ok input Hwf) as Hc. unfold control_result in Hc.
+  destruct (pdu_from_stream p input) as [[t m]| | |]; cbn [lift done r_out]; auto; try contradiction.
+  destruct (t =? PDUTYPE_DATA) eqn:Et; cbn [negb lift done r_out]; auto.
+  apply N.eqb_eq in Et. subst t.
+  assert (Hp : produced p share_data_header_t m).
+  { destruct Hc as [H|[[_ H]|[H|H]]]; auto; type_clash. }
+  pose proof (data_pdu_from_pdu_ok m Hp) as Hd. unfold data_result in Hd.
+  destruct (data_pdu_from_pdu p m) as [[t2' d]| | |]; cbn [lift done r_out]; auto; try contradiction.
+  destruct (t2' =? t2) eqn:Et2; cbn [negb lift done r_out]; auto.
+  apply N.eqb_eq in Et2. subst t2'.
+  destruct act as [a|]; cbn [done r_out]; auto.
+  assert (Ht2 : t2 = PDUTYPE2_CONTROL) by (apply Hact; discriminate). subst t2.
+  assert (Hpd : produced p (ts_control_pdu CTRLACTION_COOPERATE) d).
+  { destruct Hd as [H|[[_ H]|[H|[H|H]]]]; auto; type_clash. }
+  destruct (produced_post p _ d Ls7 Hpd) as [Hsig Hb].
+  assert (Hf : has_field "action" d = true) by (rewrite (has_field_sig _ _ _ Hsig); reflexivity).
+  destruct (cast_num_nocrash 16 "action" d Hb Hf) as [H1 H2].
+  destruct (cast_num 16 (get d "action")) as [x| | |]; cbn [lift done r_out]; auto; try congruence.
+  destruct (x =? a); cbn [done r_out]; auto.
+Qed.
+
+Lemma data_pdus_nocrash : forall l s,
+  Forall (produced p share_control_header_t) l -> nocrash (snd (data_pdus p s l)).
+Proof.
+  layouts.
+  induction l as [|c tl IH]; intros s H; cbn [data_pdus snd]; auto.
+  inversion H as [|? ? Hc Htl]; subst.
+  pose proof (pdu_from_control_ok c Hc) as Hr. unfold control_result in Hr.
+  destruct (pdu_from_control p c) as [[t m]| | |]; cbn [snd]; auto; try contradiction.
+  destruct (t =? PDUTYPE_DEACTIVATEALL); auto.
+  destruct (t =? PDUTYPE_DATA) eqn:Et; cbn [negb]; auto.
+  apply N.eqb_eq in Et. subst t.
+  assert (Hp : produced p share_data_header_t m).
+  { destruct Hr as [Hx|[[_ Hx]|[Hx|Hx]]]; auto; type_clash. }
+  pose proof (data_pdu_from_pdu_ok m Hp) as Hd. unfold data_result in Hd.
+  destruct (data_pdu_from_pdu p m) as [[t2 d]| | |]; cbn [snd]; auto; try contradiction.
+  destruct (t2 =? PDUTYPE2_SET_ERROR_INFO) eqn:Et2; auto.
+  apply N.eqb_eq in Et2. subst t2.
+  assert (Hpd : produced p ts_set_error_info_pdu d).
+  { destruct Hd as [Hx|[Hx|[Hx|[Hx|[_ Hx]]]]]; auto; type_clash. }
+  destruct (produced_post p _ d Ls10 Hpd) as [Hsig Hb].
+  assert (Hf : has_field "errorInfo" d = true) by (rewrite (has_field_sig _ _ _ Hsig); reflexivity).
+  destruct (cast_num_nocrash 32 "errorInfo" d Hb Hf) as [H1 H2].
+  destruct (cast_num 32 (get d "errorInfo")); cbn [snd]; auto; congruence.
+Qed.
+
+Lemma read_data_pdu_nocrash s input :
+  wf_bytes input -> nocrash (r_out (read_data_pdu p s input)).
+Proof.
+  intros Hwf. unfold read_data_pdu. layouts.
+  pose proof (rd_prod p _ input Ls15 Hwf) as Hr.
+  destruct (rd p (MArray [] (Some share_control_header_t)) input) as [arr| | |]; cbn [lift done r_out]; auto; try contradiction.
+  destruct (produced_array p _ arr Ls1 Hr) as [l [-> Hl]].
+  pose proof (data_pdus_nocrash l s Hl) as Hn.
+  destruct (data_pdus p s l) as [s' o]. cbn [done r_out snd] in *. exact Hn.
+Qed.
+
+(* ---- fast path ---- *)
+Lemma rect_event_nocrash r : produced p ts_bitmap_data r -> nocrash (rect_event r).
+Proof.
+  intros Hp. destruct safe_elems as [_ Lb]. destruct (produced_post p _ r Lb Hp) as [Hsig Hb].
+  unfold rect_event.
+  repeat (apply obind_nocrash;
+          [apply cast_num_nocrash; [exact Hb|rewrite (has_field_sig _ _ _ Hsig); reflexivity]|intros ? _]).
+  assert (Hf : has_field "bitmapDataStream" r = true) by (rewrite (has_field_sig _ _ _ Hsig); reflexivity).
+  pose proof (cast_bytes_ok "bitmapDataStream" r Hb Hf) as Hc.
+  destruct (cast_bytes (get r "bitmapDataStream")); cbn [obind]; auto; contradiction.
+Qed.
+
+Lemma rect_events_nocrash : forall l acc,
+  Forall (produced p ts_bitmap_data) l -> nocrash (snd (rect_events l acc)).
+Proof.
+  induction l as [|r tl IH]; intros acc H; cbn [rect_events snd]; auto.
+  inversion H as [|? ? Hr Htl]; subst.
+  destruct (rect_event_nocrash r Hr) as [H1 H2].
+  destruct (rect_event r); cbn [snd]; auto; congruence.
+Qed.
+
+Definition fp_result (r : outcome (N * msg)) : Prop :=
+  match r with
+  | Ok (t, m) =>
+      (t = FP_BITMAP /\ produced p ts_fp_update_bitmap m) \/
+      (t <> FP_BITMAP)
+  | Err _ => True
+  | _ => False
+  end.
+
+Lemma fp_from_fp_ok u : produced p ts_fp_update u -> fp_result (fp_from_fp p u).
+Proof.
+  intros Hp. layouts. destruct (produced_post p _ u Ls11 Hp) as [Hsig Hb].
+  unfold fp_from_fp, fp_result.
+  assert (Hf1 : has_field "updateHeader" u = true) by (rewrite (has_field_sig _ _ _ Hsig); reflexivity).
+  assert (Hf2 : has_field "updateData" u = true) by (rewrite (has_field_sig _ _ _ Hsig); reflexivity).
+  destruct (cast_num_nocrash 8 "updateHeader" u Hb Hf1) as [Hn1 Hn2].
+  destruct (cast_num 8 (get u "updateHeader")) as [h| | |]; cbn [obind]; auto.
+  destruct (fp_type_known (N.land h 15)); cbn [negb]; auto.
+  destruct (N.land h 15 =? FP_BITMAP) eqn:E1; [apply N.eqb_eq in E1|].
+  { pose proof (parse_field_prod (N.land h 15) "updateData" u ts_fp_update_bitmap Hb Hf2 Ls12) as H.
+    match goal with |- match ?o with _ => _ end => destruct o as [[t d]| | |]; auto end.
+    destruct H as [-> H]. auto. }
+  apply N.eqb_neq in E1.
+  destruct (N.land h 15 =? FP_COLOR).
+  { pose proof (parse_field_prod (N.land h 15) "updateData" u ts_colorpointerattribute Hb Hf2 Ls13) as H.
+    match goal with |- match ?o with _ => _ end => destruct o as [[t d]| | |]; auto end.
+    destruct H as [-> H]. auto. }
+  destruct (N.land h 15 =? FP_SYNCHRONIZE).
+  { pose proof (parse_field_prod (N.land h 15) "updateData" u empty_component Hb Hf2 Ls14) as H.
+    match goal with |- match ?o with _ => _ end => destruct o as [[t d]| | |]; auto end.
+    destruct H as [-> H]. auto. }
+  destruct (N.land h 15 =? FP_PTR_NULL); auto.
+  { pose proof (parse_field_prod (N.land h 15) "updateData" u empty_component Hb Hf2 Ls14) as H.
+    match goal with |- match ?o with _ => _ end => destruct o as [[t d]| | |]; auto end.
+    destruct H as [-> H]. auto. }
+Qed.
+
+Lemma fp_updates_nocrash : forall l acc,
+  Forall (produced p ts_fp_update) l -> nocrash (snd (fp_updates p l acc)).
+Proof.
+  layouts. destruct safe_elems as [_ Lb].
+  induction l as [|u tl IH]; intros acc H; cbn [fp_updates snd]; auto.
+  inversion H as [|? ? Hu Htl]; subst.
+  pose proof (fp_from_fp_ok u Hu) as Hr. unfold fp_result in Hr.
+  destruct (fp_from_fp p u) as [[t m]| | |]; cbn [snd]; auto; try contradiction.
+  destruct (t =? FP_BITMAP) eqn:Et; auto.
+  apply N.eqb_eq in Et. subst t.
+  assert (Hp : produced p ts_fp_update_bitmap m) by (destruct Hr as [[_ Hx]|Hx]; [exact Hx|congruence]).
+  destruct (produced_post p _ m Ls12 Hp) as [Hsig Hb].
+  assert (Hf : has_field "rectangles" m = true) by (rewrite (has_field_sig _ _ _ Hsig); reflexivity).
+  destruct (get_field "rectangles" m Hb Hf) as [rs [Hg _]]. rewrite Hg.
+  destruct (comp_array_field p _ m "rectangles" ts_bitmap_data rs Ls12 Hp eq_refl Hg) as [rl [-> Hrl]].
+  pose proof (rect_events_nocrash rl acc Hrl) as Hn.
+  destruct (rect_events rl acc) as [acc' o]. cbn [snd] in Hn.
+  destruct o; cbn [snd]; auto.
+Qed.
+
+Lemma read_fast_path_nocrash s input :
+  wf_bytes input -> nocrash (r_out (read_fast_path p s input)).
+Proof.
+  intros Hwf. unfold read_fast_path. layouts.
+  pose proof (rd_prod p _ input Ls16 Hwf) as Hr.
+  destruct (rd p (MArray [] (Some ts_fp_update)) input) as [arr| | |]; cbn [lift done r_out]; auto; try contradiction.
+  destruct (produced_array p _ arr Ls11 Hr) as [l [-> Hl]].
+  pose proof (fp_updates_nocrash l [] Hl) as Hn.
+  destruct (fp_updates p l []) as [evs o]. cbn [r_out snd] in *. exact Hn.
+Qed.
+
+(* ---- global::Client::read in every state ---- *)
+Definition wf_payload (pl : payload) : Prop :=
+  match pl with Raw b => wf_bytes b | FastPath _ b => wf_bytes b end.
+
+Lemma global_read_nocrash s pl : wf_payload pl -> nocrash (r_out (global_read p s pl)).
+Proof.
+  intros Hwf. unfold global_read.
+  destruct (st s); destruct pl as [b|f b]; cbn [wf_payload] in Hwf; cbn [done r_out]; auto.
+  - apply read_demand_active_nocrash; auto.
+  - apply read_expect_data_nocrash; auto. intros H; exfalso; apply H; reflexivity.
+  - apply read_expect_data_nocrash; auto.
+  - apply read_expect_data_nocrash; auto.
+  - apply read_expect_data_nocrash; auto. intros H; exfalso; apply H; reflexivity.
+  - apply read_data_pdu_nocrash; auto.
+  - apply read_fast_path_nocrash; auto.
 Qed.
 End Glue.
+
+(* ---- the layers below: deframing one frame, X.224, MCS ---- *)
+Lemma wf_firstn n (l : bytes) : wf_bytes l -> wf_bytes (firstn n l).
+Proof. unfold wf_bytes. revert l. induction n; intros [|x l] H; cbn; auto. inversion H; subst. constructor; auto. Qed.
+Lemma wf_skipn n (l : bytes) : wf_bytes l -> wf_bytes (skipn n l).
+Proof. unfold wf_bytes. revert l. induction n; intros [|x l] H; cbn; auto. inversion H; subst. auto. Qed.
+Lemma wf_app (a b : bytes) : wf_bytes a -> wf_bytes b -> wf_bytes (a ++ b).
+Proof. unfold wf_bytes. intros. apply Forall_app. auto. Qed.
+Lemma wf_tl x (l : bytes) : wf_bytes (x :: l) -> wf_bytes l.
+Proof. intros H. inversion H; auto. Qed.
+
+Definition wf_stream (cs : stream) : Prop := Forall wf_bytes cs.
+
+Lemma read_exact_spec : forall cs n, wf_stream cs ->
+  match read_exact n cs with
+  | (Some b, cs') => List.length b = n /\ wf_bytes b /\ wf_stream cs'
+  | (None, cs') => wf_stream cs'
+  end.
+Proof.
+  induction cs as [|c cs' IH]; intros n Hwf; destruct n as [|n]; cbn [read_exact].
+  - repeat split; auto using wf_nil.
+  - constructor.
+  - repeat split; auto using wf_nil.
+  - inversion Hwf as [|? ? Hc Hcs]; subst.
+    destruct c as [|x c']; [exact Hcs|].
+    destruct (Nat.leb (List.length (x :: c')) (S n)) eqn:E.
+    + apply Nat.leb_le in E. specialize (IH (S n - List.length (x :: c'))%nat Hcs).
+      destruct (read_exact (S n - List.length (x :: c')) cs') as [[l|] cs'']; auto.
+      destruct IH as [Hl [Hwl Hws]]. repeat split; auto using wf_app.
+      rewrite app_length, Hl. lia.
+    + apply Nat.leb_gt in E. repeat split.
+      * apply firstn_length_le. lia.
+      * apply wf_firstn; auto.
+      * constructor; auto. apply wf_skipn; auto.
+Qed.
+
+Lemma link_read_spec n cs : (0 < n)%nat -> wf_stream cs ->
+  match link_read n cs with
+  | (Ok b, cs') => List.length b = n /\ wf_bytes b /\ wf_stream cs'
+  | (Err _, cs') => wf_stream cs'
+  | _ => False
+  end.
+Proof.
+  intros Hn Hwf. destruct n as [|n]; [lia|]. unfold link_read.
+  pose proof (read_exact_spec cs (S n) Hwf) as H.
+  destruct (read_exact (S n) cs) as [[b|] cs']; auto.
+Qed.
+
+Lemma read_body_spec n cs : wf_stream cs ->
+  match read_body n cs with
+  | (Ok b, cs') => wf_bytes b /\ wf_stream cs'
+  | (Err _, cs') => wf_stream cs'
+  | _ => False
+  end.
+Proof.
+  intros Hwf. destruct n as [|n]; cbn [read_body]; [split; auto using wf_nil|].
+  pose proof (link_read_spec (S n) cs (Nat.lt_0_succ _) Hwf) as H.
+  destruct (link_read (S n) cs) as [[b| | |] cs']; auto. tauto.
+Qed.
+
+Definition read_result_ok (r : outcome payload * stream) : Prop :=
+  match r with
+  | (Ok pl, cs') => wf_payload pl /\ wf_stream cs'
+  | (Err _, cs') => wf_stream cs'
+  | _ => False
+  end.
+
+Ltac body_case cs :=
+  match goal with
+  | |- read_result_ok (match read_body ?n cs with _ => _ end) =>
+      let H := fresh in
+      pose proof (read_body_spec n cs ltac:(assumption)) as H;
+      destruct (read_body n cs) as [[?| | |] ?]; cbn [read_result_ok wf_payload]; auto
+  end.
+
+(* tpkt::Client::read never panics, whatever the stream *)
+Lemma tpkt_read_ok cs : wf_stream cs -> read_result_ok (tpkt_read cs).
+Proof.
+  intros Hwf. unfold tpkt_read.
+  pose proof (link_read_spec 2 cs ltac:(lia) Hwf) as H1.
+  destruct (link_read 2 cs) as [[l| | |] cs1]; cbn [read_result_ok]; auto.
+  destruct H1 as [Hl [Hwl Hw1]].
+  destruct l as [|action [|b1 [|? ?]]]; cbn [List.length] in Hl; try discriminate.
+  destruct (action =? 3).
+  - pose proof (link_read_spec 2 cs1 ltac:(lia) Hw1) as H2.
+    destruct (link_read 2 cs1) as [[l2| | |] cs2]; cbn [read_result_ok]; auto.
+    destruct H2 as [Hl2 [Hwl2 Hw2]].
+    destruct l2 as [|hi [|lo [|? ?]]]; cbn [List.length] in Hl2; try discriminate.
+    destruct (of_be16 hi lo <? 4); cbn [read_result_ok]; auto.
+    body_case cs2.
+  - destruct (N.land b1 128 =? 0).
+    + destruct (b1 <? 2); cbn [read_result_ok]; auto. body_case cs1.
+    + pose proof (link_read_spec 1 cs1 ltac:(lia) Hw1) as H2.
+      destruct (link_read 1 cs1) as [[l2| | |] cs2]; cbn [read_result_ok]; auto.
+      destruct H2 as [Hl2 [Hwl2 Hw2]].
+      destruct l2 as [|lo [|? ?]]; cbn [List.length] in Hl2; try discriminate.
+      match goal with |- context [if ?c then _ else _] => destruct c end; cbn [read_result_ok]; auto.
+      body_case cs2.
+Qed.
+
+Lemma x224_read_ok cs : wf_stream cs -> read_result_ok (x224_read cs).
+Proof.
+  intros Hwf. unfold x224_read. pose proof (tpkt_read_ok cs Hwf) as H.
+  destruct (tpkt_read cs) as [[pl| | |] cs']; cbn [read_result_ok] in *; auto.
+  destruct pl as [b|f b]; auto. destruct H as [Hb Hs]. cbn [wf_payload] in Hb.
+  unfold x224_strip. destruct b as [|b0 [|b1 [|sep rest]]]; auto.
+  destruct (sep =? 128); auto. split; auto. cbn [wf_payload].
+  apply wf_tl in Hb. apply wf_tl in Hb. apply wf_tl in Hb. exact Hb.
+Qed.
+
+Lemma frame_payload_ok frame : wf_bytes frame ->
+  match frame_payload frame with Ok pl => wf_payload pl | Err _ => True | _ => False end.
+Proof.
+  intros Hwf. unfold frame_payload.
+  pose proof (x224_read_ok [frame] ltac:(constructor; [assumption|constructor])) as H.
+  destruct (x224_read [frame]) as [[pl| | |] cs']; cbn [read_result_ok] in H; auto. tauto.
+Qed.
+
+Lemma per_read_integer_16_ok k input : wf_bytes input ->
+  match per_read_integer_16 k input with Ok (_, r) => wf_bytes r | Err _ => True | _ => False end.
+Proof.
+  intros Hwf. unfold per_read_integer_16. destruct input as [|h [|l r]]; auto.
+  destruct (of_be16 h l + k <? 65536); auto. apply wf_tl in Hwf. apply wf_tl in Hwf. exact Hwf.
+Qed.
+
+Lemma per_read_length_ok input : wf_bytes input ->
+  match per_read_length input with Ok (_, r) => wf_bytes r | Err _ => True | _ => False end.
+Proof.
+  intros Hwf. unfold per_read_length. destruct input as [|b r]; auto.
+  apply wf_tl in Hwf. destruct (N.land b 128 =? 0); auto.
+  destruct r as [|b2 r2]; auto. apply wf_tl in Hwf. exact Hwf.
+Qed.
+
+Lemma mcs_read_ok s pl : wf_payload pl ->
+  match mcs_read s pl with Ok pl' => wf_payload pl' | Err _ => True | _ => False end.
+Proof.
+  intros Hwf. unfold mcs_read. destruct pl as [b|f b]; [|exact Hwf]. cbn [wf_payload] in Hwf.
+  destruct b as [|header r0]; auto. apply wf_tl in Hwf.
+  destruct (N.shiftr header 2 =? 8); auto.
+  destruct (N.shiftr header 2 =? 26); cbn [negb]; auto.
+  pose proof (per_read_integer_16_ok 1001 r0 Hwf) as H1.
+  destruct (per_read_integer_16 1001 r0) as [[x r1]| | |]; cbn [obind]; auto.
+  pose proof (per_read_integer_16_ok 0 r1 H1) as H2.
+  destruct (per_read_integer_16 0 r1) as [[chan r2]| | |]; cbn [obind]; auto.
+  destruct ((chan =? channel_id s) || (chan =? user_id s)); cbn [negb]; auto.
+  destruct r2 as [|x2 r3]; auto. apply wf_tl in H2.
+  pose proof (per_read_length_ok r3 H2) as H3.
+  destruct (per_read_length r3) as [[len r4]| | |]; cbn [obind]; auto.
+  destruct (chan =? channel_id s); auto.
+Qed.
+
+(* ---- the whole read path ---- *)
+Theorem client_read_nocrash p s frame :
+  wf_bytes frame -> nocrash (r_out (client_read p s frame)).
+Proof.
+  intros Hwf. unfold client_read.
+  pose proof (frame_payload_ok frame Hwf) as H1.
+  destruct (frame_payload frame) as [pl| | |]; cbn [lift done r_out]; auto; try contradiction.
+  pose proof (mcs_read_ok s pl H1) as H2.
+  destruct (mcs_read s pl) as [pl'| | |]; cbn [lift done r_out]; auto; try contradiction.
+  apply global_read_nocrash. exact H2.
+Qed.
+
+(* every history of frames and input attempts: no step ever panics or spins *)
+Definition wf_op (o : op) : Prop := match o with OpRead f => wf_bytes f | _ => True end.
+
+Lemma client_write_nocrash p s e : nocrash (r_out (client_write p s e)).
+Proof.
+  unfold client_write, write_input_event.
+  destruct e as [x y b d|c d|]; cbn [done r_out]; auto; destruct (st s); cbn [done r_out]; auto.
+  - match goal with |- nocrash (r_out ?t) => let v := eval vm_compute in (r_out t) in change (nocrash v) end. auto.
+  - match goal with |- nocrash (r_out ?t) => let v := eval vm_compute in (r_out t) in change (nocrash v) end. auto.
+Qed.
+
+Lemma do_op_nocrash p s o : wf_op o -> nocrash (r_out (do_op p s o)).
+Proof.
+  intros H. destruct o as [f|e|e]; cbn [do_op wf_op] in *.
+  - apply client_read_nocrash; auto.
+  - apply client_write_nocrash.
+  - unfold client_try_write. pose proof (client_write_nocrash p s e) as Hn.
+    destruct (r_out (client_write p s e)) as [u|er| |] eqn:E; cbn [r_out]; try rewrite E; auto.
+    destruct er; cbn [r_out]; try rewrite E; auto.
+Qed.
+
+Theorem run_ops_nocrash p : forall ops s,
+  Forall wf_op ops -> Forall (fun r => nocrash (r_out r)) (run_ops p s ops).
+Proof.
+  induction ops as [|o tl IH]; intros s H; cbn [run_ops]; constructor; inversion H; subst.
+  - apply do_op_nocrash; auto.
+  - apply IH; auto.
+Qed.
+
+(* ---- memory: every buffer the session read path sizes from the wire ---- *)
+Definition session_templates : list msg :=
+  [share_control_header_t; ts_demand_active_pdu; share_data_header_t; ts_confirm_active_pdu_t; ts_deactivate_all_pdu;
+   ts_synchronize_pdu 0; ts_control_pdu CTRLACTION_COOPERATE; ts_font_list_pdu; ts_font_map_pdu; ts_set_error_info_pdu;
+   ts_fp_update; ts_fp_update_bitmap; ts_colorpointerattribute; empty_component;
+   MArray [] (Some share_control_header_t); MArray [] (Some ts_fp_update);
+   ts_general_capability_set 0; ts_bitmap_capability_set 0 0 0; ts_order_capability_set 2; ts_bitmap_cache_capability_set;
+   ts_pointer_capability_set; ts_input_capability_set 0 1036; ts_brush_capability_set; ts_glyph_capability_set;
+   ts_offscreen_capability_set; ts_virtualchannel_capability_set; ts_sound_capability_set;
+   ts_multifragment_update_capability_ts].
+
+Lemma session_templates_checked :
+  forallb (fun m => safe m && (alloc_bound m <=? 65535)) session_templates = true.
+Proof. vm_compute. reflexivity. Qed.
+
+Theorem session_alloc_bound p t input :
+  In t session_templates -> wf_bytes input ->
+  match read p t input with
+  | ROk _ _ a | RErr _ _ a => a <= 65535
+  | _ => False
+  end.
+Proof.
+  intros Hin Hwf. pose proof session_templates_checked as H. rewrite forallb_forall in H.
+  specialize (H t Hin). apply andb_true_iff in H. destruct H as [Hs Ha]. apply N.leb_le in Ha.
+  pose proof (read_safe p t Hs input Hwf) as Hp. unfold post in Hp.
+  destruct (read p t input); try contradiction.
+  - destruct Hp as [_ [_ [_ [_ [_ [Hx _]]]]]]. lia.
+  - destruct Hp as [_ [_ Hx]]. lia.
+Qed.
+
+(* the templates the dispatchers select are all in that list *)
+Lemma capability_template_in t tm : capability_template t = Some tm -> In tm session_templates.
+Proof.
+  unfold capability_template.
+  repeat (match goal with |- context [if ?c then _ else _] => destruct c end;
+          [intros H; inversion H; subst; cbn; tauto|]).
+  discriminate.
+Qed.
